@@ -306,7 +306,7 @@ def dests(datagrams):
     return out
 
 
-def fresh(seed, refuse=False):
+def fresh(seed, refuse=False, **controller_kw):
     m = M.Machine(3, 3, buffer_size=256)
     for c in m.chips.values():
         c.alloc_fail = c.rtr_fail = bool(refuse)
@@ -316,7 +316,7 @@ def fresh(seed, refuse=False):
         c.wr(0x60000000, bytes(rng.getrandbits(8) for _ in range(512)),
              log=False)
         c.allocs[0x60100000] = (64, 0, 30)
-    r = M.Rig(m)
+    r = M.Rig(m, **controller_kw)
     r.mc.scp_data_length      # prefetch so both twins start alike
     return r
 
@@ -392,9 +392,13 @@ def call_with_plan(mc, name, base, cargs, resolved, decoy, plan, kwonly,
             else:
                 kw[a] = resolved[a]
     elif plan == "missing":
-        # app_id is always provided by the controller's initial context
-        req = [a for a in cargs if a not in defaults and a != "app_id"]
-        missing = req[-1] if req else None
+        # app_id is provided by the controller's initial context - unless
+        # the controller was given an initial context of the caller's own
+        has_app = not getattr(mc, "_rv_own_initial_context", False)
+        req = [a for a in cargs if a not in defaults and
+               (a != "app_id" or not has_app)]
+        missing = ("app_id" if "app_id" in req else
+                   req[-1] if req else None)
         kw.update({a: resolved[a] for a in cargs if a != missing})
 
     if ctxs and ambient_p is not None and "p" not in cargs:
@@ -430,7 +434,16 @@ def run_mc(case, ctx):
         mcm = importlib.import_module(
             "rig.machine_control.machine_controller")
         refusal = (mcm.SpiNNakerMemoryError, mcm.SpiNNakerRouterError)
-        A, B = fresh(case["seed"], refuse), fresh(case["seed"], refuse)
+        own_ctx = {}
+        if plan_ == "missing" and "app_id" in cargs and case["seed"] % 3:
+            # a controller created with an initial context of the caller's
+            # own that says nothing about the application
+            own_ctx = dict(initial_context=[{}, {"x": 1, "y": 2}][
+                case["seed"] % 2])
+            ctx.hit("own_initial_context")
+        A = fresh(case["seed"], refuse, **own_ctx)
+        A.mc._rv_own_initial_context = bool(own_ctx)
+        B = fresh(case["seed"], refuse)
         stack0 = A.mc.get_context_arguments()
         markA, markB = len(A.net.log), len(B.net.log)
         go, used_ctx, missing, visible_p = call_with_plan(
